@@ -125,3 +125,11 @@ Theorem C16_object_changes_only_by_a_configured_function : forall c ops, hist_ok
      r_obj r = (if mark then mark_obj (r_obj p) (r_status p) else r_obj p)).
 Proof. exact object_changes_only_by_function. Qed.
 Print Assumptions C16_object_changes_only_by_a_configured_function.
+
+(* "its version starts at 1 and grows by exactly 1 per write", read off the history of committed writes: the j-th committed write
+   of a run (counting from 0, whatever other runs' writes lie in between) carries version j + 1 *)
+Theorem C16_version_counts_the_writes : forall c ops, hist_ok ops ->
+  forall h1 x h2, w_hist (fst (run_ops c ops)) = h1 ++ x :: h2 ->
+  r_ver x = Z.of_nat (length (filter (by_run (r_run x)) h1)) + 1.
+Proof. exact version_counts_the_writes. Qed.
+Print Assumptions C16_version_counts_the_writes.
